@@ -24,6 +24,7 @@ import (
 	"os"
 	"strconv"
 	"strings"
+	"time"
 
 	_ "github.com/wader/fq/format/all"
 	"github.com/wader/fq/internal/bitiox"
@@ -206,9 +207,39 @@ func (o *vos) FS() fs.FS                                         { return o.fsys
 func (o *vos) History() ([]string, error)                        { return nil, nil }
 func (o *vos) Readline(opts interp.ReadlineOpts) (string, error) { return "", io.EOF }
 
-// runFq runs `fq <args...>` in-process. Machinery failure (non-zero exit) is fatal: every generated program
-// catches its own errors, so a failing invocation means the harness produced a bad program.
+// hangAfter: a chunk of a thousand programs takes well under a second; real code that has not returned after
+// this long is looping. The harness cannot stop it, so it reports the chunk (exit 4) and the runner re-runs
+// that chunk alone before calling it a hang.
+var hangAfter = 90 * time.Second
+
+func init() {
+	if s, err := strconv.Atoi(os.Getenv("C09_HANG_S")); err == nil && s > 0 {
+		hangAfter = time.Duration(s) * time.Second
+	}
+}
+
+var onHang func() // flushes what has been recorded and describes the stuck chunk
+
 func runFq(files memFS, args ...string) {
+	done := make(chan struct{})
+	go func() {
+		runFq1(files, args...)
+		close(done)
+	}()
+	select {
+	case <-done:
+	case <-time.After(hangAfter):
+		if onHang != nil {
+			onHang()
+		}
+		fmt.Fprintf(os.Stderr, "HANG: fq did not return within %v\n", hangAfter)
+		os.Exit(4)
+	}
+}
+
+// runFq1 runs `fq <args...>` in-process. Machinery failure (non-zero exit) is fatal: every generated program
+// catches its own errors, so a failing invocation means the harness produced a bad program.
+func runFq1(files memFS, args ...string) {
 	o := &vos{args: append([]string{"fq"}, args...), stdout: &bytes.Buffer{}, stderr: &bytes.Buffer{}, fsys: files}
 	i, err := interp.New(o, interp.DefaultRegistry)
 	if err != nil {
@@ -266,6 +297,10 @@ func evalChunk(cs []gcase, out *kit.Out) {
 	parts := make([]string, len(cs))
 	for i, c := range cs {
 		parts[i] = wrapCase(c.ID, c.Txt)
+	}
+	onHang = func() {
+		out.Close()
+		fmt.Fprintf(os.Stderr, "HANGCHUNK %d %d\n", cs[0].ID, cs[len(cs)-1].ID)
 	}
 	runFq(nil, "-n", prelude+strings.Join(parts, ",\n"))
 	for _, c := range cs {
@@ -623,6 +658,12 @@ func randDriver(nTrees int, outPath string) {
 			parts = append(parts, fmt.Sprintf("(try (%s) catch _c09e(%d) | empty)", txt, 1000000+root.id))
 		}
 		store = map[int]*slot{}
+		onHang = func() {
+			for ti, t := range trees { // the programs of the stuck chunk, for the runner's re-run and the replay file
+				out.Emit(event{O: opRec{Op: "hangchunk"}, In: val{"t": "null"}, Out: val{"t": "null"}, Tree: base + ti, Txt: t.txt})
+			}
+			out.Close()
+		}
 		file := ipv4File(rng)
 		fileBits := bitsOfBytes(file, int64(8*len(file)))
 		runFq(memFS{"p.bin": file}, "-n", `("p.bin" | open | decode("ipv4_packet")) as $d | `+strings.Join(parts, ",\n"))
@@ -696,7 +737,10 @@ func main() {
 		randDriver(kit.Atoi(os.Args[2]), os.Args[3])
 	case "one":
 		store = map[int]*slot{}
-		runFq(nil, "-n", prelude+wrapCase(0, os.Args[2]))
+		onHang = nil
+		// `$d` as in the random driver (a fixed packet here), so tree programs of that driver can be re-run alone
+		file := ipv4File(rand.New(rand.NewSource(1)))
+		runFq(memFS{"p.bin": file}, "-n", prelude+`("p.bin" | open | decode("ipv4_packet")) as $d | `+wrapCase(0, os.Args[2]))
 		s, ok := store[0]
 		if !ok {
 			fmt.Println(`{"t":"empty"}`)
